@@ -6,6 +6,7 @@ import MgProof.C20.NumLemmas
 import MgProof.C20.PathLemmas
 import MgProof.C20.NormLemmas
 import MgProof.C20.NormRef2
+import MgProof.C20.FloatLemmas
 /-!
 # C20 — property theorems (pure utilities)
 
@@ -343,6 +344,35 @@ theorem tou_orig_truncates :
 /-- pinned `toul`/`toull`: `"-2"` is reported as success with 2^64 − 2 -/
 theorem toul_orig_wraps : strToulOrig [45, 50] 10 = .ok (some 18446744073709551614) := by decide
 
+/-! ## 5b. float parsers (same clause, for `tof` / `tod` / `told`) -/
+
+/-- **float parsers, main theorem.** For every string and each of the three formats (binary32,
+binary64, x87 extended) the wrapper returns exactly what the specification defines: success
+iff the string without surrounding blanks is `[+-]` followed by one decimal or hexadecimal
+floating numeral (or `inf`, `infinity`, `nan`, `nan(n-char-seq)` in any case) and the correctly
+rounded value (round-to-nearest-even, gradual underflow) does not overflow; the value reported
+is that correctly rounded value. -/
+theorem float_parsers_exact (f : Fmt) (s : CStr) : strToFloat f s = refParseFloat f s :=
+  strToFloat_eq f s
+
+/-- the scanning half: `strtod` (as specified) converts a numeral with only blanks behind it
+exactly when the stripped string is one numeral, with the same exact value -/
+theorem strtod_scan_spec (s : CStr) :
+    floatNumeral (stripBlanks s) =
+      (if (strtodScan s).consumed ≠ 0 ∧ (s.drop (strtodScan s).consumed).all isSpace
+       then some (strtodScan s).val else none) :=
+  float_scan_spec s
+
+/-- pinned `tof`: `"-1e50"` is reported as success with −inf; pinned `tod`: `"1e999 "` with +inf -/
+theorem tof_tod_orig_accept_overflow :
+    strToFloatOrig true fmt32 [45, 49, 101, 53, 48] = some (.inf true true) ∧
+    refParseFloat fmt32 [45, 49, 101, 53, 48] = none ∧
+    strToFloatOrig false fmt64 [49, 101, 57, 57, 57, 32] = some (.inf false true) ∧
+    refParseFloat fmt64 [49, 101, 57, 57, 57, 32] = none := by
+  set_option exponentiation.threshold 4000 in
+  set_option maxRecDepth 10000 in
+  refine ⟨?_, ?_, ?_, ?_⟩ <;> decide
+
 /-! ## 6. path functions (clauses "never write beyond the caller's buffer", "NUL-terminate
 whatever they report as success", "agree with a reference path algebra") -/
 
@@ -448,5 +478,9 @@ example : NoNul [97, 47, 98] ∧ NoNul [99] ∧
   · decide
 
 example : hexToBytes [100, 69] = .ok [222] ∧ hexFromBytes [222] = some [68, 69] := by decide
+
+-- " 0x1.8p1 " parses to 3.0 = sign 0, biased exponent 1024, fraction 2^51
+example : strToFloat fmt64 [32, 48, 120, 49, 46, 56, 112, 49, 32] = some (.bits false 1024 2251799813685248) := by
+  decide
 
 end MgProof.C20
